@@ -221,6 +221,7 @@ func (c *deleteCleaner) deleteSegments(segments []*segment) error {
 			}
 			// Continue trying to delete other segments
 		}
+		crashPoint("retention.deleted")
 	}
 
 	return firstErr
